@@ -8,7 +8,9 @@
 (*     parse {values, rank, zero, one, finite, panic}   header.ParseAccept *)
 (*     ct    {k, d, result, panic}       NegotiateContentType(olists[k], defaults[d]) *)
 (*     api   {k, produces, status, ran, ctype, panic}   full API handler,  *)
-(*           operation produces = olists[k], DefaultProduces = adef;       *)
+(*           operation `method /t` with the single declared response       *)
+(*           `success` (200 / 201 / 204 / default), produces = olists[k],  *)
+(*           DefaultProduces = adef;                                       *)
 (*           produces = the route's Produces as built (map order)          *)
 (*  "enc"    lines (structured Accept-Encoding), olists (coding lists)     *)
 (*     parse as above;  enc {k, result, panic}  NegotiateContentEncoding   *)
@@ -61,6 +63,11 @@ CTWhy(s, e) ==
 (* duplicates collapsed) plus the API default unless contained.  Respond negotiates over "the       *)
 (* produces list plus the API's default type, last": the non-default entries in the route's order,  *)
 (* then the default.                                                                                *)
+\* status of an accepted request by the operation's declared success response.  DefaultOnlyIs500 (named deviation, the
+\* statement is silent): an operation declaring only a `default` response runs its handler and answers 500.
+SuccessStatus(success) ==
+  CASE success = "201" -> 201 [] success = "204" -> 204 [] success = "default" -> 500 [] OTHER -> 200
+
 APIOK(s, e) ==
   LET decl == s.olists[e.k]
       recs == Rng(decl) \cup {s.adef}
@@ -74,14 +81,16 @@ APIOK(s, e) ==
   /\ (dr \notin { Raw(o) : o \in Rng(decl) }) => obs[Len(obs)] = dr
   /\ LET offers == [i \in DOMAIN order |-> CHOOSE o \in recs : Raw(o) = order[i]]
          k == BestOffer(SpecsOf(s.lines), offers)
-     IN IF k = 0 THEN e.status = 406 /\ ~e.ran
-        ELSE e.status = 200 /\ e.ran /\ e.ctype = order[k]
+     IN IF k = 0 THEN e.status = 406 /\ ~e.ran          \* whatever the method and the declared success response
+        ELSE /\ e.ran
+             /\ e.status = SuccessStatus(s.success)
+             /\ s.success # "default" => e.ctype = order[k]
 
 APIWhy(s, e) ==
   IF e.panic THEN "api-panics"
   ELSE IF e.status = 406 /\ e.ran THEN "406-but-handler-ran"
-  ELSE IF e.status \notin {200, 406} THEN "api-unexpected-status"
-  ELSE "api-status-or-content-type-differs-from-best-offer"
+  ELSE IF e.status = 406 THEN "406-but-an-offered-type-is-acceptable"
+  ELSE "api-handler-run-status-or-content-type-differs-from-best-offer"
 
 EncOK(s, e) ==
   LET offers == s.olists[e.k] IN
